@@ -288,7 +288,7 @@ type GenOpt struct {
 	AllowKnown bool
 }
 
-var mainTypes = []string{"Ints", "Scalars", "Nulls", "Sers", "Embs", "Defs", "Comp", "Keyed", "StrKey", "UnixU", "Twice", "Loc", "Loc", "Uid", "PTimes", "PTimes", "Modeled", "Modeled", "Defs2", "Defs2"}
+var mainTypes = []string{"Ints", "Scalars", "Nulls", "Sers", "Embs", "Defs", "Comp", "Keyed", "StrKey", "UnixU", "Twice", "Loc", "Loc", "Uid", "PTimes", "PTimes", "Modeled", "Modeled", "Defs2", "Defs2", "SDef", "SDef", "CDef"}
 var mapTypes = []string{"Ints", "Scalars", "Keyed", "Comp", "Embs", "Twice", "Loc", "Uid"}
 
 func genInput(r *lib.Rng, id int, g GenOpt) Input {
@@ -335,6 +335,7 @@ func genInput(r *lib.Rng, id int, g GenOpt) Input {
 		dbdefZero = false
 	}
 	embNil := r.Chance(1, 3)
+	ragged := isMap && r.Chance(2, 3)
 	overAt := -1
 	if g.Over {
 		overAt = r.Intn(g.N)
@@ -386,6 +387,10 @@ func genInput(r *lib.Rng, id int, g GenOpt) Input {
 				over := i == overAt && f.Kind.K == "uint" && f.Kind.W == 64 && !f.HPK
 				rec[j] = genVal(r, f, f.Kind, f.goType, over)
 				if isMap && f.Kind.K == "ser" {
+					rec[j] = vAbsent
+				}
+				// ragged key sets: a map may lack any non-key column (then NULL / omitted)
+				if isMap && ragged && !f.HPK && r.Chance(1, 3) {
 					rec[j] = vAbsent
 				}
 			}
